@@ -21,3 +21,21 @@ def _patched(pyrdl_def):
 
 if getattr(_ops.OpDef.from_pyrdl, "__name__", "") != "_patched":
     _ops.OpDef.from_pyrdl = staticmethod(_patched)
+
+
+# `minimalloc` (the external allocator solver) is not installed: snaxc/transforms/snax_allocate.py imports it at
+# module level, so provide an import-only placeholder (the MiniMallocate pattern itself is NOT exercised through it)
+try:
+    import minimalloc  # noqa: F401
+except ImportError:
+    import types as _types
+
+    _m = _types.ModuleType("minimalloc")
+
+    class _Unavailable:
+        def __init__(self, *a, **k):
+            raise RuntimeError("minimalloc is not installed in this sandbox")
+
+    _m.Buffer = _Unavailable
+    _m.Problem = _Unavailable
+    sys.modules["minimalloc"] = _m
